@@ -148,12 +148,10 @@ def _run(ctx, pq):
 
     # ------------------------------------------------------------ B: datasets on disk
     n_b = 120 if quick else 1200
-    for i in range(n_b):
-        confirm = i < (4 if quick else 20)
-        case = gen_dataset_case(rng, confirm, i)
-        root = os.path.join(ctx.scratch, "b%d" % i)
-        res = check_dataset(case, root, pq, ctx)
-        shutil.rmtree(root, ignore_errors=True)
+    cases = [gen_dataset_case(rng, i < (4 if quick else 20), i) for i in range(n_b)]
+    # forked workers (harness.common.pmap): a native crash or a hang while opening/reading is a failing input
+    results = L.run_dataset_jobs(ctx, check_dataset, cases, "b", _replayable)
+    for case, res in zip(cases, results):
         ctx.case(case, trivial=(len(case["files"]) == 1 and case["root_mode"] == "inferred"))
         ctx.count("B.shape", case["shape"])
         ctx.count("B.nfiles", len(case["files"]))
@@ -436,9 +434,14 @@ def replay(rep):
     tmp = tempfile.mkdtemp(prefix="verif-C14-replay-", dir="/tmp")
     try:
         print(json.dumps(case, indent=1)[:3000])
-        res = check_dataset(case, os.path.join(tmp, "ds"), pq, None, verbose=True)
-        print("PROPERTY FAILS" if res["problems"] else "property holds on this input")
-        return 1 if res["problems"] else 0
+        # in a forked worker: a native crash of the real code is an observation of the replay, not its end
+        out = C.pmap(lambda c: check_dataset(c, os.path.join(tmp, "ds"), L.worker_pq(), None, verbose=True)["problems"],
+                     [case], nproc=1, job_timeout=300)[0]
+        if isinstance(out, dict) and "__crashed__" in out:
+            print("PROPERTY FAILS: the real code did not survive this input:", out["__crashed__"], out.get("tb", ""))
+            return 1
+        print("PROPERTY FAILS" if out else "property holds on this input")
+        return 1 if out else 0
     finally:
         pq.close()
         shutil.rmtree(tmp, ignore_errors=True)
